@@ -7,8 +7,8 @@
 #include <iostream>
 
 static const char* KEYS[] = {nullptr, "A", "KEYEIGHT", "ALONGERKEYNAME", "HIERARCHKEYWITHAVERYLONGNAME0123456789", "ORDER7", "TYPEX",
-                             "lower", "Mixedlongkeyname", "", "SP ACE", "LONGKEYWITH=SIGN", "NAXIS", "D2Y0Z19", "ORDERING_SCHEME", "PERIODICITY", "TYPE_OF_TABLE"};
-static const int NKEYS = 16;
+                             "lower", "Mixedlongkeyname", "", "SP ACE", "LONGKEYWITH=SIGN", "NAXIS", "D2Y0Z19", "ORDERING_SCHEME", "PERIODICITY", "TYPE_OF_TABLE", "LOWER", "MIXEDLONGKEYNAME"};
+static const int NKEYS = 18;
 struct Val { char type; long i; double d; std::string s; };
 static std::vector<Val> VALS;
 static void init_vals() {
@@ -123,12 +123,12 @@ int main(int argc, char** argv) {
 	}
 	if (mode == "random" && argc >= 6) {
 		long count = atol(argv[2]), len = atol(argv[3]); Rng rng(strtoull(argv[4], 0, 10)); FILE* out = fopen(argv[5], "w"); long nops = 0;
-		const int good_keys[] = {1, 2, 3, 4, 13};
+		const int good_keys[] = {1, 2, 3, 4, 13, 17, 18};
 		for (long h = 0; h < count; h++) {
 			if (h) fprintf(out, "{\"op\":\"reset\"}\n");
 			Runner r(out); r.use_c = h % 4 == 3; int rt = (int)h;
 			for (long i = 0; i < len; i++) {
-				int k = rng.below(10) < 7 ? good_keys[rng.below(5)] : 1 + (int)rng.below(NKEYS);
+				int k = rng.below(10) < 7 ? good_keys[rng.below(7)] : 1 + (int)rng.below(NKEYS);
 				switch (rng.below(10)) {
 					case 0: case 1: case 2: case 3: case 4: r.write(k, 1 + (int)rng.below(16)); break;
 					case 5: case 6: r.remove(k); break;
